@@ -20,7 +20,15 @@ const int REPROC_SIGTERM = 143;
 static DWORD last_error;
 void SetLastError(DWORD e) { last_error = e; }
 DWORD GetLastError(void) { return last_error; }
-BOOL SetHandleInformation(HANDLE h, DWORD mask, DWORD flags) { (void) h; (void) mask; (void) flags; return 1; }
+// what the library told Win32 about handles (the Windows halves of C10 / C11, as far as they can be
+// observed at the CreateProcessW boundary)
+static HANDLE rec_inheritable[16], rec_list[16], rec_closed[16], rec_std[3];
+static int n_inheritable, n_list, n_closed, rec_inherit_flag, rec_std_flag, rec_ext_flag, rec_has_list;
+BOOL SetHandleInformation(HANDLE h, DWORD mask, DWORD flags)
+{
+  if ((mask & HANDLE_FLAG_INHERIT) && (flags & HANDLE_FLAG_INHERIT) && n_inheritable < 16) rec_inheritable[n_inheritable++] = h;
+  return 1;
+}
 struct verif_attr_list { int dummy[8]; };
 BOOL InitializeProcThreadAttributeList(LPPROC_THREAD_ATTRIBUTE_LIST l, DWORD n, DWORD flags, SIZE_T *size)
 {
@@ -36,7 +44,11 @@ BOOL InitializeProcThreadAttributeList(LPPROC_THREAD_ATTRIBUTE_LIST l, DWORD n, 
 BOOL UpdateProcThreadAttribute(LPPROC_THREAD_ATTRIBUTE_LIST l, DWORD flags, uintptr_t attr, LPVOID value, SIZE_T size,
                                LPVOID prev, SIZE_T *ret)
 {
-  (void) l; (void) flags; (void) attr; (void) value; (void) size; (void) prev; (void) ret;
+  (void) l; (void) flags; (void) prev; (void) ret;
+  if (attr == PROC_THREAD_ATTRIBUTE_HANDLE_LIST) {
+    n_list = 0;
+    for (size_t i = 0; i < size / sizeof(HANDLE) && n_list < 16; i++) rec_list[n_list++] = ((HANDLE *) value)[i];
+  }
   return 1;
 }
 void DeleteProcThreadAttributeList(LPPROC_THREAD_ATTRIBUTE_LIST l) { (void) l; }
@@ -46,7 +58,11 @@ DWORD WaitForSingleObject(HANDLE h, DWORD ms) { (void) h; (void) ms; return 0; }
 BOOL GetExitCodeProcess(HANDLE h, DWORD *code) { (void) h; *code = 0; return 1; }
 BOOL GenerateConsoleCtrlEvent(DWORD ev, DWORD group) { (void) ev; (void) group; return 1; }
 BOOL TerminateProcess(HANDLE h, UINT code) { (void) h; (void) code; return 1; }
-BOOL CloseHandle(HANDLE h) { (void) h; return 1; }
+BOOL CloseHandle(HANDLE h)
+{
+  if (n_closed < 16) rec_closed[n_closed++] = h;
+  return 1;
+}
 
 // parent environment block prescribed by the case
 static wchar_t *parent_block;
@@ -67,8 +83,15 @@ static int create_calls;
 BOOL CreateProcessW(LPCWSTR app, LPWSTR cmdline, LPSECURITY_ATTRIBUTES pa, LPSECURITY_ATTRIBUTES ta, BOOL inherit,
                     DWORD flags, LPVOID env, LPCWSTR cwd, LPSTARTUPINFOW si, LPPROCESS_INFORMATION pi)
 {
-  (void) app; (void) pa; (void) ta; (void) inherit; (void) flags; (void) cwd; (void) si;
+  (void) app; (void) pa; (void) ta; (void) cwd;
   create_calls++;
+  rec_inherit_flag = inherit ? 1 : 0;
+  rec_ext_flag = (flags & EXTENDED_STARTUPINFO_PRESENT) ? 1 : 0;
+  rec_std_flag = (si->dwFlags & STARTF_USESTDHANDLES) ? 1 : 0;
+  rec_std[0] = si->hStdInput;
+  rec_std[1] = si->hStdOutput;
+  rec_std[2] = si->hStdError;
+  rec_has_list = rec_ext_flag && ((STARTUPINFOEXW *) si)->lpAttributeList != NULL;
   free(cap_cmd);
   free(cap_env);
   size_t n = wcslen(cmdline);
@@ -447,10 +470,102 @@ static char *rand_arg(int maxlen)
   return s;
 }
 
+// Windows halves of C10 (each standard stream is the handle the options name) and C11 (nothing but
+// those three and the exit handle is inheritable by the child), observed where the library hands
+// them to Win32.
+static long st_handle_cases;
+static void hviol(const char *cls, const char *msg, const HANDLE *h)
+{
+  st_viol++;
+  printf("V\t%s\tin=%p,out=%p,err=%p,exit=%p\t%s\n", cls, h[0], h[1], h[2], h[3], msg);
+}
+static void check_handles(void)
+{
+  st_handle_cases++;
+  HANDLE h[4];
+  for (int i = 0; i < 4; i++) h[i] = (HANDLE) (intptr_t) (0x100 + 0x10 * (rnd() % 200));
+  for (int i = 0; i < 4; i++)
+    for (int j = 0; j < i; j++)
+      if (h[i] == h[j]) h[i] = (HANDLE) ((intptr_t) h[i] + 0x4 * (i + 1));  // distinct ...
+  if (rnd() % 3 == 0) h[2] = h[1];                                             // ... except stderr on stdout's handle
+  struct process_options o;
+  memset(&o, 0, sizeof o);
+  o.env.behavior = REPROC_ENV_EXTEND;
+  o.handle.in = h[0];
+  o.handle.out = h[1];
+  o.handle.err = h[2];
+  o.handle.exit = h[3];
+  const char *argv[] = { "prog", "x", NULL };
+  set_parent(NULL);
+  n_inheritable = n_list = n_closed = 0;
+  create_calls = 0;
+  HANDLE proc = INVALID_HANDLE_VALUE;
+  int r = process_start(&proc, argv, o);
+  if (r < 0 || create_calls != 1) {
+    hviol("win-start-failed", "process_start failed for valid handles", h);
+    return;
+  }
+  char msg[200];
+  if (!rec_std_flag || rec_std[0] != h[0] || rec_std[1] != h[1] || rec_std[2] != h[2]) {
+    snprintf(msg, sizeof msg, "STARTUPINFO std handles %p/%p/%p (USESTDHANDLES=%d)", rec_std[0], rec_std[1], rec_std[2], rec_std_flag);
+    hviol("win-std-handles", msg, h);
+  }
+  if (!rec_inherit_flag || !rec_ext_flag || !rec_has_list) {
+    snprintf(msg, sizeof msg, "bInheritHandles=%d EXTENDED_STARTUPINFO_PRESENT=%d attribute list=%d: without all three every inheritable handle of the parent leaks",
+             rec_inherit_flag, rec_ext_flag, rec_has_list);
+    hviol("win-handle-list-not-in-force", msg, h);
+  }
+  // the list: every needed handle, nothing else
+  for (int i = 0; i < 4; i++) {
+    int found = 0;
+    for (int j = 0; j < n_list; j++) found |= rec_list[j] == h[i];
+    if (!found) {
+      snprintf(msg, sizeof msg, "handle %p (%s) is not in the inheritance list", h[i], i == 3 ? "exit" : i == 0 ? "stdin" : i == 1 ? "stdout" : "stderr");
+      hviol("win-handle-list-missing", msg, h);
+    }
+  }
+  for (int j = 0; j < n_list; j++) {
+    int known = 0;
+    for (int i = 0; i < 4; i++) known |= rec_list[j] == h[i];
+    if (!known) {
+      snprintf(msg, sizeof msg, "the inheritance list holds %p, which is none of the four handles", rec_list[j]);
+      hviol("win-handle-list-foreign", msg, h);
+    }
+  }
+  for (int j = 0; j < n_inheritable; j++) {
+    int known = 0;
+    for (int i = 0; i < 4; i++) known |= rec_inheritable[j] == h[i];
+    if (!known) {
+      snprintf(msg, sizeof msg, "handle %p was made inheritable, it is none of the four", rec_inheritable[j]);
+      hviol("win-foreign-handle-made-inheritable", msg, h);
+    }
+  }
+  // the process handle goes to the caller, the thread handle is closed, nothing of the caller's is
+  if (proc != (HANDLE) (intptr_t) 0x1000) hviol("win-process-handle", "the process handle returned is not the one CreateProcessW produced", h);
+  int thread_closed = 0;
+  for (int j = 0; j < n_closed; j++) {
+    if (rec_closed[j] == (HANDLE) (intptr_t) 0x2000) thread_closed++;
+    for (int i = 0; i < 4; i++)
+      if (rec_closed[j] == h[i]) hviol("win-closes-callers-handle", "process_start closed one of the handles it was given", h);
+  }
+  if (thread_closed != 1) {
+    snprintf(msg, sizeof msg, "the thread handle was closed %d times", thread_closed);
+    hviol("win-thread-handle", msg, h);
+  }
+}
+
 int main(int argc, char **argv)
 {
   wrap_init();
   wrap_reset_case();
+  if (argc >= 6 && !strcmp(argv[1], "--handles")) {
+    long w = atol(argv[2]), nw = atol(argv[3]);
+    rs = (uint64_t) atol(argv[5]) * 0x9E3779B97F4A7C15ULL + (uint64_t) w * 131 + 5;
+    long n = (!strcmp(argv[4], "thorough") ? 200000 : 8000) / nw + 1;
+    for (long i = 0; i < n; i++) check_handles();
+    printf("H\t%ld\t%ld\n", st_handle_cases, st_viol);
+    return st_viol ? 1 : 0;
+  }
   if (argc >= 3 && !strcmp(argv[1], "--one")) {
     verbose = 1;
     const char *av[64] = { "prog" };
